@@ -6,7 +6,7 @@ A *case* is a dict (see harness/sim/src/main.rs for the wire format):
     {"src": veryl text, "top": "Top", "clk": "clk"|None, "rst": "rst"|None,
      "ins": [[name,width],...], "outs": [[name,width],...],
      "cycles": [{"r":0|1, "v":[hex,...], "m":[hex,...]?}, ...]}
-A result is ("OK", trace, display) | ("ERR", text) | ("PANIC", text) | ("CRASH", text)
+A result is ("OK", trace, display, info) | ("ERR", text) | ("PANIC", text) | ("CRASH", text)
 where trace = [[(payload:int, mask:int) per output] per cycle].
 """
 import json
@@ -48,7 +48,8 @@ def parse_result(line):
     if line.startswith("OK "):
         j = json.loads(line[3:])
         trace = [[(int(c.split("/")[0], 16), int(c.split("/")[1], 16)) for c in row] for row in j["trace"]]
-        return ("OK", trace, j.get("display", ""))
+        info = {k: v for k, v in j.items() if k not in ("trace", "display")}
+        return ("OK", trace, j.get("display", ""), info)
     for k in ("ERR", "PANIC", "CRASH"):
         if line.startswith(k):
             return (k, line[len(k) + 1:])
@@ -260,4 +261,36 @@ def shrink(m, stim, pred, budget=250):
                 cur = c
                 improved = True
                 break
+    return cur, cst
+
+
+def shrink_batch(m, stim, pred_batch, rounds=14, width=48):
+    """like shrink, but evaluates up to `width` candidates per round in ONE batch
+    (pred_batch([(m, stim), ...]) -> [bool, ...]) and keeps the smallest one that still fails."""
+    cur, cst = m, stim
+    for _ in range(rounds):
+        cands = []
+        if len(cst) > 1:
+            cands += [(cur, cst[:len(cst) // 2]), (cur, cst[:-1])]
+            if len(cst) > 2:
+                cands.append((cur, cst[:1]))
+        mc = [c for c in module_candidates(cur) if size_of(c) < size_of(cur)]
+        mc.sort(key=size_of)
+        # a spread over the size range: the most aggressive ones first, but also mild ones
+        if len(mc) > width:
+            step = len(mc) / float(width)
+            mc = [mc[int(i * step)] for i in range(width)]
+        cands += [(c, cst) for c in mc]
+        if not cands:
+            break
+        oks = pred_batch(cands)
+        best = None
+        for (c, s), ok in zip(cands, oks):
+            if ok:
+                k = (size_of(c), len(s))
+                if best is None or k < best[0]:
+                    best = (k, c, s)
+        if best is None:
+            break
+        cur, cst = best[1], best[2]
     return cur, cst
